@@ -55,6 +55,10 @@ RULES = {
           "`from_str(\"lit\") == Ok(V)` is generated per arm",
     "E8": "monomorphisation: a generic parameter (`mono T=i128`) or `Self` (`selftype i128`) is replaced textually by the "
           "concrete type named in the directive; the generic bound list is dropped",
+    "E20": "FFI forwarding functions (temporal_capi): each `pub fn` of the ffi module whose body is one call chain is reduced to its call "
+           "skeleton - receiver, callee path and the parameters in argument order; conversions (.into(), .try_into()?, .map(Into::into), "
+           "&x.0, .clone(), into_converted_option) and the result suffix (.map(|x| Box::new(..)), .map_err(Into::into), Box::new(Self(..))) "
+           "are dropped; callee and wrapper are compared through one uninterpreted function of (type, method name, argument list)",
     "E19": "format!(..) (error-message text only) -> \"\"; the TemporalError stand-in keeps the kind and drops the message",
     "E18": "compiled-data wrappers: `TZ_PROVIDER.lock().map_err(..)?` -> `acquire()?`, `&*provider` -> `provider.get()`; every type is an "
            "opaque stand-in; every core method is external_body with its own uninterpreted spec function",
@@ -515,6 +519,10 @@ def parse_template(path):
             nodes.append(("wrapper_types", i + 1, ""))
         elif s.startswith("//@wrappers "):
             nodes.append(("wrappers", i + 1, s[len("//@wrappers "):].strip()))
+        elif s.startswith("//@capi_alias "):
+            nodes.append(("capi_alias", i + 1, s[len("//@capi_alias "):].strip()))
+        elif s.startswith("//@capi "):
+            nodes.append(("capi", i + 1, s[len("//@capi "):].strip()))
         elif s.startswith("//@roundtrip "):
             nodes.append(("roundtrip", i + 1, s[len("//@roundtrip "):].strip()))
         elif s.startswith("//@fn ") or s.startswith("//@assume ") or s.startswith("//@trusted "):
@@ -1027,6 +1035,110 @@ def emit_wrappers(em, target):
                 em.rules.add("E18")
 
 
+_capi_alias = {}
+_capi_ids = {}
+
+
+def _capi_id(key):
+    if key not in _capi_ids:
+        _capi_ids[key] = len(_capi_ids) + 1
+    return _capi_ids[key]
+
+
+def emit_capi(em, target):
+    """C19 / E20: `//@capi <temporal_capi file>`: call-skeleton obligations for the forwarding functions of the ffi module.
+    For `pub fn name(&self, p1, p2) { self.0.callee(e1, e2)<suffix> }` the generated obligation is
+        call(id(Type, callee), [self, origin(e1), origin(e2)]) == spec_call(id(Type, expected(name)), [self, p1, p2])
+    where origin(e) is the parameter the argument expression is built from and expected(name) is the wrapper's own name
+    unless a `//@capi_alias Type::name => core_name` line of the unit says otherwise.  Functions whose body is not a single
+    call chain on `self.0` / `temporal_rs::Type::` are listed as skipped."""
+    src, masked = load(target)
+    mm = re.search(r"pub mod ffi\s*\{", masked)
+    if not mm:
+        raise ExtractError("E20: no ffi module in %s" % target)
+    mod_open = mm.end() - 1
+    mod_end = match_brace(masked, mod_open)
+    skipped = []
+    for im in scan_items(src, masked, mod_open + 1, mod_end):
+        if im.kind != "impl" or " for " in im.header:
+            continue
+        ty = im.header.split()[-1]
+        for f in scan_items(src, masked, im.open + 1, im.end):
+            if f.kind != "fn" or not src[f.start:f.kw].strip().startswith("pub"):
+                continue
+            body = src[f.open + 1:f.end].strip()
+            mbody = mask_source(body)
+            params, _ret = _sig_parts(src, masked, f)
+            pnames = []
+            has_self = False
+            for part in split_top_commas(" ".join(params.split())):
+                part = part.strip()
+                if part in ("&self", "self", "&mut self"):
+                    has_self = True
+                elif part:
+                    pnames.append(part.partition(":")[0].strip().lstrip("_"))
+            m = re.match(r"^((?:self|[a-z_][a-z0-9_]*)\s*\.\s*0|temporal_rs::([A-Za-z_][A-Za-z0-9_]*))\s*(\.|::)\s*([a-z_][a-z0-9_]*)\s*\(", mbody)
+            if m and not m.group(2) and re.sub(r"\s", "", m.group(1))[:-2] not in ["self"] + pnames:
+                m = None
+            wrapped = re.match(r"^(?:Ok\()?Box::new\((?:Self|[A-Z][A-Za-z0-9_]*)\((self\.0)\s*\.\s*([a-z_][a-z0-9_]*)\s*\(", mbody)
+            if ";" in mbody or (not m and not wrapped):
+                skipped.append("%s::%s" % (ty, f.name))
+                continue
+            if m:
+                recv_self = not m.group(2)
+                recv_name = re.sub(r"\s", "", m.group(1))[:-2] if recv_self else None
+                core_ty = ty if recv_self else m.group(2)
+                callee = m.group(4)
+                ob = m.end() - 1
+            else:
+                recv_self, recv_name, core_ty, callee = True, "self", ty, wrapped.group(2)
+                ob = wrapped.end() - 1
+            cb = match_brace(mbody, ob)
+            # what follows the call may only re-wrap the core result (Box / newtype / error conversion / .into() / .as_inner())
+            suffix = re.sub(r"\s+", "", body[cb + 1:])
+            if wrapped:
+                suffix_ok = re.match(r"^\)\)\)?$", suffix) is not None
+            else:
+                suffix_ok = re.match(r"^(\.map\(\|([a-z])\|Box::new\([A-Z][A-Za-z0-9]*\(\2\)\)\))?(\.map_err\(Into::into\))?(\.into\(\)|\.as_inner\(\))?$", suffix) is not None
+            if not suffix_ok:
+                skipped.append("%s::%s" % (ty, f.name))
+                continue
+            args = split_top_commas(body[ob + 1:cb])
+            origins = []
+            okay = True
+            for a in args:
+                names = [n for n in re.findall(r"[a-z_][a-z0-9_]*", mask_source(a)) if n in pnames or n == "self"]
+                names = [n for n in names if n != "self"] + (["self"] if "self" in names and not [n for n in names if n != "self"] else [])
+                # the argument may only convert the parameter (newtype field, Into / TryInto, Option::map of those)
+                shape = re.sub(r"\s+", "", a)
+                if len(names) != 1 or not re.match(r"^&?[a-z_][a-z0-9_]*(\.0)?(\.clone\(\)|\.into\(\)|\.try_into\(\)\?|\.map\(Into::into\)|\.map\(\|([a-z_]+)\|\3\.0\))?$", shape):
+                    okay = False
+                    break
+                origins.append(names[0])
+            if not okay:
+                skipped.append("%s::%s" % (ty, f.name))
+                continue
+            expected = _capi_alias.get("%s::%s" % (ty, f.name), f.name)
+            origin = "%s:%d" % (target, lineno(src, f.start))
+            recv = [("this" if recv_name == "self" else "p_" + recv_name)] if recv_self else []
+            got_args = recv + [("this" if o == "self" else "p_" + o) for o in origins]
+            want_args = (["this"] if has_self else []) + ["p_" + n for n in pnames]
+            sig = ", ".join((["this: V"] if has_self else []) + ["p_%s: V" % n for n in pnames])
+            fname = "ffi_%s_%s" % (ty, f.name)
+            if len(want_args) > 10 or len(got_args) > 10:
+                skipped.append("%s::%s" % (ty, f.name))
+                continue
+            pad = lambda xs, nil: ", ".join(xs + [nil] * (10 - len(xs)))
+            em.emit("/// %s::%s forwards to %s::%s\npub fn %s(%s) -> (r: V)\n    ensures r == spec_call(%d, %s),\n{\n    call(%du32, %s)\n}" % (
+                ty, f.name, core_ty, callee, fname, sig, _capi_id((core_ty, expected)), pad(want_args, "nil()"), _capi_id((core_ty, callee)), pad(got_args, "NIL")), origin + " (E20)")
+            em.fns.append({"name": fname, "target": "%s :: ffi %s::%s" % (target, ty, f.name), "kind": "fn", "src": origin, "gen_from": 0, "gen_to": 0, "clauses": 1,
+                           "src_lines": [lineno(src, f.start), lineno(src, f.end)]})
+            em.rules.add("E20")
+    if skipped:
+        em.emit("// E20 skipped in %s (body is not a single forwarding call chain): %s" % (target, ", ".join(skipped)), target)
+        em.trusted.append({"fn": "E20 skipped in %s: %s" % (target, ", ".join(skipped)), "how": "not a single forwarding call chain; not under contract"})
+
+
 def emit_wrapper_types(em):
     for t in sorted(_wr_types):
         if t == "TinyAsciiStr":
@@ -1200,6 +1312,8 @@ def generate(unit, out_path=None):
     tmpl = os.path.join(VERIF, "units", unit + ".vrs")
     em = Emitter(unit)
     _wr_types.clear()
+    _capi_alias.clear()
+    _capi_ids.clear()
     _wr_callees.clear()
 
     def walk(path, depth=0):
@@ -1227,6 +1341,11 @@ def generate(unit, out_path=None):
                 emit_roundtrip(em, node[2])
             elif node[0] == "wrappers":
                 emit_wrappers(em, node[2])
+            elif node[0] == "capi_alias":
+                a, _, b = node[2].partition("=>")
+                _capi_alias[a.strip()] = b.strip()
+            elif node[0] == "capi":
+                emit_capi(em, node[2])
             elif node[0] == "wrapper_types":
                 emit_wrapper_types(em)
 
